@@ -414,12 +414,17 @@ func C19(c *runner.Cfg) *report.Result {
 				return
 			}
 		}
-		quiesce("after the outage")
+		quiet := quiesce("after the outage")
 		var ch mpx.Channel
 		st := hist.record(101, "channel", func() status.Status { var st status.Status; ch, st = cl.Channel(noCtx); return st })
 		if !st.OK() && proxy.TargetDialFailures.Load() > 0 {
 			res.Inconcl("lifetime %d: the proxy itself failed to reach the server (%d times); recovery not judged", idx, proxy.TargetDialFailures.Load())
 		} else if !st.OK() {
+			snap, _ := mpx.VerifClientSnapshot(cl)
+			wit["client_snapshot_after_the_failed_call"] = fmt.Sprintf("%+v", snap)
+			wit["proxy_open"], wit["proxy_accepts"], wit["quiescent_before_the_call"] = proxy.Open(), proxy.Accepts.Load(), quiet
+			_, st2 := cl.Conn(noCtx)
+			wit["second_call"] = st2.String()
 			res.Violate("c19:no-recovery", fmt.Sprintf("the server is reachable again but the next Channel call returned %v (auto-connect=%v)", st, auto), wit)
 		} else {
 			if st := echoOnce(ch, uint32(idx)); !st.OK() {
